@@ -121,6 +121,10 @@ def check_apply(c, rec):
         V, _ = np.linalg.qr(V)
       e = rng.uniform(0.1, 3, k)
       cc = float(rng.uniform(0.1, 3))
+      if rng.random() < 0.15:
+        # complement weight exactly zero with the flag unset (a vanished tail): denotes V diag(e) V', not the identity
+        cc = 0.0
+        rec.count("zero_complement_weight_cases")
       P = ds._fd_low_rank_pack(jnp.asarray(V), jnp.zeros(k), jnp.asarray(e), cc, 0.3, c["hz"][ax], r)
       preconds.append(P)
       dense.append(np.eye(d) if c["hz"][ax] else dense_from_fields(V, e, cc, d))
